@@ -1,4 +1,4 @@
-use crate::builtin::builtin_imports::*;
+use crate::{builtin::builtin_imports::*, value::fuzzy_equals};
 
 pub(crate) fn length(mut args: ArgumentResult, visitor: &mut Visitor) -> SassResult<Value> {
     args.max_args(1)?;
@@ -19,7 +19,9 @@ pub(crate) fn nth(mut args: ArgumentResult, visitor: &mut Visitor) -> SassResult
         return Err(("$n: List index may not be 0.", args.span()).into());
     }
 
-    if index.num.abs() > Number::from(list.len()) {
+    if index.num.abs() > Number::from(list.len())
+        && !fuzzy_equals(index.num.abs().0, list.len() as f64)
+    {
         return Err((
             format!(
                 "$n: Invalid index {}{} for a list with {} elements.",
@@ -74,7 +76,7 @@ pub(crate) fn set_nth(mut args: ArgumentResult, visitor: &mut Visitor) -> SassRe
 
     let len = list.len();
 
-    if index.num.abs() > Number::from(len) {
+    if index.num.abs() > Number::from(len) && !fuzzy_equals(index.num.abs().0, len as f64) {
         return Err((
             format!(
                 "$n: Invalid index {}{} for a list with {} elements.",
